@@ -3,12 +3,14 @@
 package hdf5
 
 import (
+	"encoding/binary"
 	"fmt"
 	"sort"
 	"strings"
 	"sync"
 	"testing"
 
+	"github.com/scigolib/hdf5/internal/core"
 	"github.com/scigolib/hdf5/internal/verif/vkit"
 )
 
@@ -121,6 +123,18 @@ func TestVerif_C16(t *testing.T) {
 			st = append(st, vfOp{Op: "attr", Path: "/x", Name: fmt.Sprintf("cap%04d", i), Value: "s40"})
 		}
 		states = append(states, st)
+	}
+	// a target that already has a second name (its header holds a reference count message)
+	// and got attributes afterwards, compact and dense: the message a refused link has to
+	// leave alone is not the last one of the header
+	{
+		linked := []vfOp{mkX, {Op: "hardlink", Path: "/lx", Target: "/x"}, {Op: "attr", Path: "/x", Name: "a", Value: "i32a"}}
+		states = append(states, linked)
+		dense := []vfOp{mkX, {Op: "hardlink", Path: "/lx", Target: "/x"}}
+		for i := 0; i < 9; i++ {
+			dense = append(dense, vfOp{Op: "attr", Path: "/x", Name: fmt.Sprintf("f%02d", i), Value: "i64"})
+		}
+		states = append(states, dense)
 	}
 	// a dataset with an unlimited maximum (what a Resize may be asked for differs from /r's)
 	mkU := vfOp{Op: "mkds", Path: "/u", Type: "f64", Dims: []uint64{4}, Chunk: []uint64{2}, Max: []uint64{Unlimited}}
@@ -244,7 +258,7 @@ func TestVerif_C16(t *testing.T) {
 			vfOp{Op: "hardlink", Path: "/lx2", Target: "/x"}, vfOp{Op: "attr", Path: "/x", Name: "t", Value: "u8"})
 		return out
 	}
-	r.Rule(fmt.Sprintf("states = every valid prefix of length <= %d over 9 valid operations plus capacity-adjacent states (group with 32 entries, name heap nearly full, root name heap with room for exactly the follow-up name, dense attributes, header nearly full, a chunked dataset with an unlimited maximum); for each state every call of the failing-call catalogue (%d kinds, aimed at each existing object) and 4 capacity probes, followed by each of 15 valid follow-ups (9 single calls, 6 two-call sequences on the object the failing call was aimed at); when the call returned an error the closed file must dump equal to the run without the call, the follow-up must return the same, nothing may panic, Close x3 must return nil; non-trivial = the candidate call returned an error", depth, len(vfBadCalls)))
+	r.Rule(fmt.Sprintf("states = every valid prefix of length <= %d over 9 valid operations plus capacity-adjacent states (group with 32 entries, name heap nearly full, root name heap with room for exactly the follow-up name, dense attributes, header nearly full, a chunked dataset with an unlimited maximum); for each state every call of the failing-call catalogue (%d kinds, aimed at each existing object) and 4 capacity probes, followed by each of 15 valid follow-ups (9 single calls, 6 two-call sequences on the object the failing call was aimed at); when the call returned an error the closed file must dump equal to the run without the call and hold the same object reference counts, the follow-up must return the same, nothing may panic, Close x3 must return nil; non-trivial = the candidate call returned an error", depth, len(vfBadCalls)))
 	type job struct {
 		s []vfOp
 		f vfOp
@@ -317,6 +331,9 @@ func TestVerif_C16(t *testing.T) {
 				problems = append(problems, "content-differs")
 				detail["with_call"] = a.Closed.String()
 				detail["without_call"] = b.Closed.String()
+			case a.RefCounts != b.RefCounts:
+				problems = append(problems, "reference-counts-differ")
+				detail["with_call"], detail["without_call"] = a.RefCounts, b.RefCounts
 			}
 			if len(problems) == 0 {
 				r.Outcome("unchanged")
@@ -412,5 +429,51 @@ func vfRunC16(dir string, hist []vfOp) *vfExec {
 		}
 	}()
 	ex.Closed, ex.ClosedErr = vfDumpFile(w.Path)
+	ex.RefCounts = vfRefCounts(w.Path)
 	return ex
+}
+
+// vfRefCounts lists the object reference count of every group and dataset of a file (the
+// header field of version 1 headers, the reference count message of version 2 headers, 1 when
+// there is none): the logical dump does not show it, and a refused hard link must leave it alone.
+func vfRefCounts(path string) (out string) {
+	defer func() {
+		if p := recover(); p != nil {
+			out = fmt.Sprintf("PANIC: %v", p)
+		}
+	}()
+	f, err := Open(path)
+	if err != nil {
+		return "unopenable"
+	}
+	defer f.Close()
+	var lines []string
+	f.Walk(func(p string, o Object) {
+		var addr uint64
+		switch x := o.(type) {
+		case *Group:
+			addr = x.address
+		case *Dataset:
+			addr = x.address
+		default:
+			return
+		}
+		h, err := core.ReadObjectHeader(f.osFile, addr, f.sb)
+		if err != nil {
+			lines = append(lines, p+"=ERR")
+			return
+		}
+		n := uint32(1)
+		if h.Version == 1 {
+			n = h.ReferenceCount
+		}
+		for _, m := range h.Messages {
+			if m.Type == core.MsgRefCount && len(m.Data) >= 4 {
+				n = binary.LittleEndian.Uint32(m.Data)
+			}
+		}
+		lines = append(lines, fmt.Sprintf("%s=%d", p, n))
+	})
+	sort.Strings(lines)
+	return strings.Join(lines, " ")
 }
